@@ -2,6 +2,7 @@
 //! libzkchannels-crypto code in /repo.  Sub-commands execute action scripts against the
 //! implementation and write ndjson traces that TLC validates against the Trace_* specifications.
 #![allow(clippy::all)]
+mod bind;
 mod game;
 mod indep;
 mod proto;
@@ -61,6 +62,20 @@ fn real_main() {
     let seed: u64 = a.get("seed").and_then(|s| s.parse().ok()).unwrap_or(1);
     match cmd.as_str() {
         "dump-trees" => dump_trees(),
+        "transcript" => {
+            let thorough = a.get("tier").map(|t| t == "thorough").unwrap_or(false);
+            let mut ev = bind::transcript_lib(seed, thorough);
+            let mut g = game::GameEnv::new(seed);
+            ev.extend(g.transcript_abacus(thorough));
+            write_events(&a["out"], &ev);
+        }
+        "tuple" => {
+            let thorough = a.get("tier").map(|t| t == "thorough").unwrap_or(false);
+            let mut g = game::GameEnv::new(seed);
+            let mut ev = g.tuple_binding(thorough);
+            ev.extend(g.closing_substitution());
+            write_events(&a["out"], &ev);
+        }
         "revpair" => {
             let n: usize = a.get("n").and_then(|s| s.parse().ok()).unwrap_or(50);
             write_events(&a["out"], &revpair::run(seed, n));
